@@ -113,10 +113,27 @@ def _run(case):
     while 0.25 * k <= T:
         env.schedule_event(0.25 * k, -5, lambda: samples.append((env.now, sch.current_state if 'sch' in box else None)), 1.5)
         k += 1
+    def state_now():
+        # the timetable evaluated at the current clock (same fold as the reference below)
+        t_, i_, st_ = t0, 0, None
+        if 'sch' not in box:
+            return None
+        while t_ <= env.now:
+            st_ = tt[i_][1]
+            t_ += tt[i_][0]
+            i_ += 1
+            if i_ >= len(tt):
+                if not cyc:
+                    break
+                i_ = 0
+        return st_
     for i, h in enumerate(case['T']):
         s.simulate(h, print_summary=False)
         if between and i == 0:
             make()
+        elif 'sch' in box and sch.current_state != state_now():
+            raise Violation('C18.state', f'after simulate({h}) the clock is {env.now} and current_state is '
+                            f'{sch.current_state!r}, the timetable {tt} prescribes {state_now()!r}')
 
     # ---- reference timetable: state i begins at the sum of the durations before it
     bounds = []
